@@ -101,7 +101,7 @@ Qed.
 Definition errno_print_okb (e : Z * string) : bool :=
   match parse_exit ("-"%char :: s2l (snd e)) with VOk n => n =? u32_of_Z (- fst e) | _ => false end.
 Definition bad_errno_prints : list (Z * string) := filter (fun e => negb (errno_print_okb e)) errno_to_name.
-Lemma errno_prints_ok : bad_errno_prints = [].
+Lemma errno_prints_ok : filter (fun e => negb (errno_print_okb e)) errno_to_name = [].
 Proof. by_vm. Qed.
 
 Lemma parse_exit_dec_i32 v : v < 2 ^ 32 -> parse_exit (dec_i32 v) = VOk v.
@@ -128,7 +128,7 @@ Qed.
 (* ---------- msgtype ---------- *)
 Definition msgtype_print_okb (t : N) : bool := match parse_msgtype (type_name t) with VOk n => n =? t | _ => false end.
 Definition bad_msgtype_prints : list N := filter (fun t => negb (msgtype_print_okb t)) all_types.
-Lemma msgtype_prints_ok : bad_msgtype_prints = [].
+Lemma msgtype_prints_ok : filter (fun t => negb (msgtype_print_okb t)) all_types = [].
 Proof. by_vm. Qed.
 
 Theorem parse_msgtype_print v t : v < 2 ^ 32 -> print_value 12 v = Some t -> parse_msgtype t = VOk v.
@@ -143,7 +143,7 @@ Qed.
 (* ---------- perm ---------- *)
 Definition perm_print_okb (v : N) : bool := match parse_perm (perm_string v) 0 with VOk n => n =? v | _ => false end.
 Definition bad_perm_prints : list N := filter (fun v => negb (perm_print_okb v)) (upto 16).
-Lemma perm_prints_ok : bad_perm_prints = [].
+Lemma perm_prints_ok : filter (fun v => negb (perm_print_okb v)) (upto 16) = [].
 Proof. by_vm. Qed.
 Theorem parse_perm_print v : v < 16 -> parse_perm (perm_string v) 0 = VOk v.
 Proof.
@@ -156,7 +156,7 @@ Qed.
 Definition arch_value_of (s : string) : option N := match get_arch (s2l s) with Some (_, v) => Some v | None => None end.
 Definition arch_name_okb (e : N * string) : bool := optN_eqb (arch_value_of (snd e)) (fst e).
 Definition bad_arch_names : list (N * string) := filter (fun e => negb (arch_name_okb e)) arch_names.
-Lemma arch_names_ok : bad_arch_names = [].
+Lemma arch_names_ok : filter (fun e => negb (arch_name_okb e)) arch_names = [].
 Proof. by_vm. Qed.
 (* the b64 / b32 abbreviations, for whichever architecture the tables were generated on *)
 Definition arch_abbrev_okb : bool :=
@@ -260,7 +260,7 @@ Qed.
 Definition sc_name_okb (e : string * (Z * string)) : bool :=
   match syscall_number (s2l (fst e)) (s2l (snd (snd e))) with Some n => n =? u32_of_Z (fst (snd e)) | None => false end.
 Definition bad_sc_names : list (string * (Z * string)) := filter (fun e => negb (sc_name_okb e)) Tables.syscalls_flat.
-Lemma sc_names_ok : bad_sc_names = [].
+Lemma sc_names_ok : filter (fun e => negb (sc_name_okb e)) Tables.syscalls_flat = [].
 Proof. by_vm. Qed.
 
 Lemma parse_int10_64_dec n : n < 2 ^ 32 -> parse_int (dec n) 10 64 = ZOk (Z.of_N n).
